@@ -55,7 +55,15 @@ func H_Content() {
 		w := (uint64(pb) + 1) << uint(wshift)
 		val := []byte{pb, 0x5a}
 		var err error
-		if vp.NoPanic("C09.nopanic", func() { err = t.Update(pool[i], val, w) }) {
+		// Update, or the other public entry point for the same operation (Put)
+		viaPut := vp.Param("altapi", 0) == 1 && vp.Choose("via-put", 2) == 1
+		if vp.NoPanic("C09.nopanic", func() {
+			if viaPut {
+				err = t.Put(pool[i], val, w)
+			} else {
+				err = t.Update(pool[i], val, w)
+			}
+		}) {
 			return false
 		}
 		vp.Assert("C09.update-ok", err == nil)
@@ -87,7 +95,14 @@ func H_Content() {
 			i := vp.Choose("key", npool)
 			was := ref.Has(pool[i])
 			var err error
-			if vp.NoPanic("C09.nopanic", func() { err = t.Update(pool[i], nil, 0) }) {
+			viaDelete := vp.Param("altapi", 0) == 1 && vp.Choose("via-delete", 2) == 1
+			if vp.NoPanic("C09.nopanic", func() {
+				if viaDelete {
+					_, err = t.Delete(pool[i])
+				} else {
+					err = t.Update(pool[i], nil, 0)
+				}
+			}) {
 				return
 			}
 			if was {
